@@ -74,7 +74,7 @@ func VerifC02_History() {
 	srv := keeper.NewMsgServerImpl(env.K)
 
 	var g c02Ghost
-	applied := 0           // how many effects have been checked so far
+	applied := 0              // how many effects have been checked so far
 	lastObserved := uint64(0) // ghost cursor
 	sinceReset := map[uint64]int{}
 
